@@ -48,6 +48,7 @@ fn main() {
         i += 2;
     }
     let ctx = Ctx { id: id.clone(), tier, seed, jobs, lane, replay, extra, start: std::time::Instant::now() };
+    let _ = CURRENT_LANE.set(ctx.lane.clone());
     install_panic_hook();
     let code = props::dispatch(&ctx);
     std::process::exit(code);
